@@ -245,7 +245,10 @@ fn crash_signature(status: &std::process::ExitStatus, stderr: &str, hang: bool) 
             msg = line.trim().to_string();
         }
     }
-    let signature = if loc.is_empty() {
+    let signature = if loc.is_empty() && stderr.contains("memory allocation of") {
+        msg = "allocation failed under the address-space cap (unbounded memory growth)".to_string();
+        "abort(out-of-memory)".to_string()
+    } else if loc.is_empty() {
         format!("abort({})", sig)
     } else {
         format!("abort({})@{}", sig, loc)
@@ -629,7 +632,12 @@ pub fn check_main(worlds: &[World], args: CheckArgs) -> i32 {
     }
 
     // ---- aborts / hangs: confirm alone, minimise through child processes
-    for (index, how) in died.iter() {
+    // every death costs child processes that run into a timeout: analyse the first few only
+    if died.len() > 3 {
+        eprintln!("[simctl] {} worker deaths in world {}, analysing the first 3", died.len(), world.name);
+    }
+    let mut seen_signatures: std::collections::BTreeSet<String> = Default::default();
+    for (index, how) in died.iter().take(3) {
         let ctx_avoid: Vec<String> = if !avoid.is_empty() && index % 8 != 0 { avoid.clone() } else { Vec::new() };
         let (outcome, tape) = exec_index_child(world, &args, &ctx_avoid, *index);
         let ChildOutcome::Died { signature, detail } = outcome else {
@@ -644,8 +652,13 @@ pub fn check_main(worlds: &[World], args: CheckArgs) -> i32 {
         let budget = if is_hang { 12 } else { 300 };
         let timeout = Duration::from_secs(if is_hang { 12 } else { 20 });
         let want = signature.clone();
+        // wall-clock bound: candidates tried after it count as "does not fail", which only
+        // makes the stored tape less minimal; a signature already minimised once is not redone
+        let min_started = Instant::now();
+        let min_wall = Duration::from_secs(if seen_signatures.insert(signature.clone()) { 150 } else { 0 });
         let (min_tape, spent) = minimise(&tape, budget, |cand| {
-            matches!(exec_child(world, &args.prop, args.tier, &ctx_avoid, cand, timeout), ChildOutcome::Died { signature, .. } if signature == want)
+            min_started.elapsed() < min_wall
+                && matches!(exec_child(world, &args.prop, args.tier, &ctx_avoid, cand, timeout), ChildOutcome::Died { signature, .. } if signature == want)
         });
         // final confirmation + obtain the trace up to the crash is impossible in-process; store what we know
         let final_outcome = exec_child(world, &args.prop, args.tier, &ctx_avoid, &min_tape, timeout);
